@@ -20,6 +20,8 @@ import (
 	"io"
 	"net"
 	"os"
+	"path/filepath"
+	"sort"
 	"strconv"
 	"strings"
 	"time"
@@ -74,6 +76,11 @@ type scase struct {
 	ReadMax  int      `json:"read_max"`
 	CutAt    int      `json:"cut_at"` // cut: deliver this many bytes to the real side, then EOF
 	Chunker  string   `json:"chunker"`
+	End      string   `json:"end"`    // "" | eof | reset: both directions end with a final chunk handed out together with that error
+	TailI    int      `json:"tail_i"` // bytes of the stream towards I that come in the same Read as the error
+	TailR    int      `json:"tail_r"`
+	Batches  int      `json:"batches,omitempty"` // concurrent family
+	Pairs    int      `json:"pairs,omitempty"`
 }
 
 var (
@@ -113,6 +120,8 @@ func classify(err error) string {
 		return "fail:eof"
 	case errors.Is(err, net.ErrClosed):
 		return "fail:closed"
+	case errors.Is(err, obfskit.ErrReset):
+		return "fail:reset"
 	case strings.Contains(err.Error(), "failed to find peer magic value"):
 		return "fail:nomagic"
 	case strings.Contains(err.Error(), "too much pre-magic-padding"):
@@ -365,6 +374,9 @@ func (c *scase) drainLean(e *ep) {
 		case len(f) == 2 && f[0] == "ok":
 			e.got = append(e.got, vlib.UnHex(f[1])...)
 			continue
+		case len(f) == 3 && f[0] == "okerr":
+			e.got = append(e.got, vlib.UnHex(f[1])...)
+			e.lerr = "fail:" + f[2]
 		case len(f) == 2 && f[0] == "fail":
 			e.lerr = "fail:" + f[1]
 		case rep != "block":
@@ -441,6 +453,35 @@ func (c *scase) checkDue(to, from *ep, coalesced bool) {
 	c.violate(sig, "impl-oracle",
 		fmt.Sprintf("%s %s wrote %d bytes which reached real %s's socket in %s; real %s is blocked in Read with only %d bytes delivered (%d bytes still queued on the socket, %d in rxBuf) and the peer sends nothing more",
 			kindOf(from), from.role, len(to.due), to.role, how, to.role, len(to.rd.Got), to.sc.Pending(), obfs3.VerifRxBufLen(to.conn)))
+}
+
+// deliverFinal hands a side the end of its input: `front` as an ordinary chunk, then the last
+// `tail` bytes in the same Read as the error (n > 0 together with err, which io.Reader permits).
+// Towards a reference peer the bytes are delivered plainly (there is no real code to examine).
+func (c *scase) deliverFinal(e *ep, wire []byte, tail int) {
+	if !e.real {
+		c.deliverData(e, wire, nil, false)
+		return
+	}
+	if tail > len(wire) {
+		tail = len(wire)
+	}
+	front, last := wire[:len(wire)-tail], wire[len(wire)-tail:]
+	d.Call("feed %s %s", e.sess, vlib.Hex(front))
+	d.Call("feedlast %s %s %s", e.sess, vlib.Hex(last), c.End)
+	c.drainLean(e)
+	err := io.EOF
+	if c.End == "reset" {
+		err = obfskit.ErrReset
+	}
+	e.sc.Feed(front)
+	e.sc.FeedWithErr(last, err)
+	e.rd.Pump()
+	c.observeBuf(e)
+	if e.rd.Panic != nil {
+		c.violate("read-panics", "impl-oracle", fmt.Sprintf("real %s Read panicked: %v", e.role, e.rd.Panic))
+	}
+	r.Count("end-of-stream", fmt.Sprintf("%s tail=%s", c.End, obfskit.SizeClass(tail)))
 }
 
 func (e *ep) close() {
@@ -614,8 +655,28 @@ func runCase(c *scase) {
 		second.due = append(second.due, coalesced...)
 		c.deliverData(second, nil, nil, false)
 		c.checkDue(second, first, true)
+		var lastFirst, lastSecond []byte
+		if c.End != "" && len(wFirst) > 0 && len(wSecond) > 0 {
+			lastFirst, wFirst = wFirst[len(wFirst)-1], wFirst[:len(wFirst)-1]
+			lastSecond, wSecond = wSecond[len(wSecond)-1], wSecond[:len(wSecond)-1]
+		}
 		send(first, second, wFirst, dataToSecond, false)
 		send(second, first, wSecond, dataToFirst, false)
+		if lastFirst != nil {
+			// both sides write once more, then each input ends: the last bytes arrive with the error
+			cat := func(ws [][]byte) []byte { return bytes.Join(ws, nil) }
+			w1 := cat(c.write(first, lastFirst))
+			w2 := cat(c.write(second, lastSecond))
+			if first.fatal != "" || second.fatal != "" {
+				return
+			}
+			tailSecond, tailFirst := c.TailR, c.TailI
+			if c.First == "r" {
+				tailSecond, tailFirst = c.TailI, c.TailR
+			}
+			c.deliverFinal(second, w1, tailSecond)
+			c.deliverFinal(first, w2, tailFirst)
+		}
 	}
 	// --- judge
 	check := func(to, from *ep, want []byte) {
@@ -638,10 +699,23 @@ func runCase(c *scase) {
 				}
 				return
 			}
-			if !bytes.Equal(to.rd.Got, want) || to.rd.Err != nil {
+			if !bytes.Equal(to.rd.Got, want) || (to.rd.Err != nil && c.End == "") {
 				sig := "stream-not-delivered-intact"
 				if !from.real {
 					sig = "no-interop-with-reference-peer"
+				}
+				if c.End != "" && to.rd.Err != nil && len(to.rd.Got) < len(want) && bytes.HasPrefix(want, to.rd.Got) {
+					// every byte the peer wrote must be delivered before the error is reported
+					sig = "tail-lost-data-delivered-with-error"
+					tail := c.TailR
+					if to.role == "i" {
+						tail = c.TailI
+					}
+					if tail > len(want) {
+						// the chunk that came with the error reaches back into the magic / padding: it was
+						// consumed by findPeerMagic, which returns on any error before looking at the bytes
+						sig = "tail-lost-data-with-error-in-magic-scan"
+					}
 				}
 				c.violate(sig, "impl-oracle",
 					fmt.Sprintf("%s %s wrote %d bytes (padding %d+%d), real %s read %d bytes, first difference at %d, err=%v", kindOf(from), from.role, len(want),
@@ -709,6 +783,64 @@ func privClass(h string) string {
 		return "random-even"
 	default:
 		return "random-odd"
+	}
+}
+
+// ---------------------------------------------------------------- concurrency (S oracle only)
+
+// runConcurrent: `batches` × `pairs` real client↔server pairs over buffered in-memory pipes, all
+// handshakes of a batch released at the same instant on separate goroutines: state shared between
+// connections (a package-level HMAC / cipher / big.Int scratch value) only shows when connections
+// overlap. Every pair must complete and carry its payloads intact; nothing is compared with the model.
+func runConcurrent(c *scase) {
+	tape = vlib.InstallRandTape(c.TapeSeed)
+	csrand.Reader = tape
+	g := vlib.NewRng(c.TapeSeed ^ 0x5eed)
+	dial := func(raw net.Conn) (net.Conn, error) {
+		return cf.Dial("tcp", "192.0.2.1:1", func(string, string) (net.Conn, error) { return raw, nil }, nil)
+	}
+	bad := 0
+	for b := 0; b < c.Batches; b++ {
+		pl := make([][2][]byte, c.Pairs)
+		for i := range pl {
+			pl[i] = [2][]byte{g.Bytes(1 + g.Intn(3000)), g.Bytes(1 + g.Intn(3000))}
+		}
+		res := obfskit.RunPairs(c.Pairs, func(i int) ([]byte, []byte) { return pl[i][0], pl[i][1] }, dial, sf.WrapConn, 30*time.Second)
+		for i, x := range res {
+			r.Case(fmt.Sprintf("concurrent %d batch %d pair %d", c.TapeSeed, b, i), true)
+			r.Count("kind", "concurrent-real-real")
+			if x.Err == "" {
+				continue
+			}
+			bad++
+			sig := "stream-garbled-under-concurrency"
+			if x.Panic || strings.Contains(x.Err, "handshake") || strings.Contains(x.Err, "in time") || strings.Contains(x.Err, "read:") {
+				sig = "handshake-fails-under-concurrency"
+			}
+			c.violate(sig, "impl-oracle",
+				fmt.Sprintf("batch %d of %d simultaneous obfs3 client/server pairs in one process, pair %d: %s (the same pair run alone completes)", b, c.Pairs, i, x.Err))
+		}
+	}
+	r.Count("concurrent-outcome", fmt.Sprintf("failed-pairs=%d", bad))
+}
+
+// runCorpus re-runs the kept replays (known findings, past disagreements) first.
+func runCorpus() {
+	files, _ := filepath.Glob(filepath.Join(os.Getenv("VERIF_DIR"), "corpus", "C13", "*.json"))
+	sort.Strings(files)
+	for _, f := range files {
+		b, err := os.ReadFile(f)
+		if err != nil {
+			continue
+		}
+		var doc struct {
+			Case scase `json:"case"`
+		}
+		if json.Unmarshal(b, &doc) != nil || doc.Case.Kind == "" || doc.Case.Kind == "dh" || doc.Case.Kind == "concurrent" {
+			continue
+		}
+		r.Count("kind", "corpus")
+		runCase(&doc.Case)
 	}
 }
 
@@ -879,6 +1011,35 @@ func genSession(g *vlib.Rng, i int, chunker string, iReal, rReal bool) *scase {
 	c.WritesI = genWrites(g, tiny, r.Thorough() && i%40 == 7 && !tiny)
 	c.WritesR = genWrites(g, tiny, false)
 	layout(g, c, chunker)
+	if i%3 == 1 {
+		// the connection ends in both directions: the last bytes come in the same Read as the error
+		c.End = vlib.Pick(g, []string{"eof", "eof", "reset"})
+		tail := func(ws []string) int {
+			n := len(vlib.UnHex(ws[len(ws)-1]))
+			if n > c.ReadMax {
+				n = c.ReadMax
+			}
+			return 1 + g.Intn(n)
+		}
+		c.TailR, c.TailI = tail(c.WritesI), tail(c.WritesR)
+	}
+	return c
+}
+
+// genScanEnd: each side writes once; the peer's whole second flight pad2 ‖ magic ‖ data is the final
+// chunk, handed out together with the error while the receiver is still scanning for the magic.
+func genScanEnd(g *vlib.Rng, realRole string, end string, p2, dlen int) *scase {
+	c := &scase{Kind: "session", TapeSeed: g.U64(), Chunker: "scan-end", CutAt: -1, First: vlib.Pick(g, []string{"i", "r"}), End: end, ReadMax: 32768}
+	c.I = genSide(g, 1, realRole != "r", true)
+	c.R = genSide(g, 2, realRole != "i", true)
+	for _, x := range []*sideSpec{&c.I, &c.R} {
+		x.Pad2, x.Reject = p2, 0
+		if !x.Real {
+			x.Pad2B = randHex(g, p2)
+		}
+	}
+	c.WritesI, c.WritesR = []string{randHex(g, dlen)}, []string{randHex(g, dlen)}
+	c.TailI, c.TailR = p2+magicLen+dlen, magicLen/2+dlen
 	return c
 }
 
@@ -1126,6 +1287,11 @@ func main() {
 			var c dhcase
 			r.LoadReplay(&c)
 			runDH(&c)
+		} else if probe.Kind == "concurrent" {
+			var c scase
+			r.LoadReplay(&c)
+			c.Batches *= 10 // scheduling is not reproducible: replay the family, harder
+			runConcurrent(&c)
 		} else {
 			var c scase
 			r.LoadReplay(&c)
@@ -1135,6 +1301,9 @@ func main() {
 	}
 
 	g := vlib.NewRng(r.Seed)
+	runCorpus()
+	// --- overlapping connections (r.Scale triples the counts in search mode)
+	runConcurrent(&scase{Kind: "concurrent", TapeSeed: g.U64(), Batches: r.Scale(60, 600), Pairs: 16})
 	// --- UniformDH
 	nDH := r.Scale(45, 600)
 	for i := 0; i < nDH; i++ {
@@ -1190,6 +1359,13 @@ func main() {
 	for _, role := range []string{"i", "r"} {
 		for _, cut := range []int{0, 1, 100, 191, 192} {
 			runCase(genCut(g.Fork(), role, cut))
+		}
+	}
+	// --- the stream ends while the receiver still scans for the magic: the final chunk (part of the
+	// magic and the data, or the whole second flight) comes in the same Read as the error
+	for _, role := range []string{"i", "r", "both"} {
+		for _, end := range []string{"eof", "reset"} {
+			runCase(genScanEnd(g.Fork(), role, end, []int{0, 7, 300}[g.Intn(3)], 1+g.Intn(200)))
 		}
 	}
 	// --- the peer's whole flight (key ‖ pad1 ‖ pad2 ‖ magic ‖ data) in one segment, and in two
